@@ -130,8 +130,8 @@ func permutedTokenCompExtras(t *rapid.T, m *MClaims) []byte {
 func isBeyondBuilders(m *MClaims) bool { return !m.IsCanned() }
 
 func TestC10_WireFormat(t *testing.T) {
-	st := NewStats("C10", "TestC10_WireFormat", "rapid: valid claims-sets of both profiles built (a) through NewClaims+setters (optionally on an object on which every claim had already been set to another valid value of possibly different length), (b) as struct literals, (c) by decoding independently encoded tokens with permuted key order, extra unknown keys at top level and inside component maps (incl. the P1 no-measurements form), optionally followed by an in-place update of one decoded component through the object the getter returns, (d) by decoding JSON written by the harness (absent optional claims optionally spelt as null members, unknown members, 64-bit flag values, rotated member order), (e) through setters followed by REFUSED setter calls (invalid values, component lists with a malformed later entry), (g) as instances of the seven extension styles (incl. the profile-1 no-measurements form), (h) for ANY claims-set (valid or not): whatever the validating encoder emits satisfies the structural invariants; (i) components of another ISwComponent implementation, if the setter takes them; (f) through setters with the SAME component object listed at several positions (in one call or one by one through the container's Add); the bytes of ValidateAndEncodeClaimsToCBOR are parsed by the independent reader and compared key by key with the model's wire map (definite lengths, no duplicates/tags/trailing bytes, exact key set, exact values, bare-bstr nonce, never list+flag). Non-trivial = not the canned builder shape; distinct = class vector + route")
-	st.Require = []string{"route=setters", "route=literal", "route=decoded", "route=decoded+touched", "route=setters-twice", "route=json-decoded", "route=shared-component", "route=setters+refused", "route=extension", "extension-nomeas", "route=any-literal", "any-refused", "P1", "P2", "nomeas", "route=iface-wrapper", "route=concurrent-encoders"}
+	st := NewStats("C10", "TestC10_WireFormat", "rapid: valid claims-sets of both profiles built (a) through NewClaims+setters (optionally on an object on which every claim had already been set to another valid value of possibly different length), (b) as struct literals, (c) by decoding independently encoded tokens with permuted key order, extra unknown keys at top level and inside component maps (incl. the P1 no-measurements form), optionally followed by an in-place update of one decoded component through the object the getter returns, (d) by decoding JSON written by the harness (absent optional claims optionally spelt as null members, unknown members, 64-bit flag values, rotated member order), (e) through setters followed by REFUSED setter calls (invalid values, component lists with a malformed later entry), (g) as instances of the seven extension styles (incl. the profile-1 no-measurements form), (h) for ANY claims-set (valid or not; as literal, decoded, or built through the setters and then changed by editing a listed component through its exported fields): whatever the validating encoder emits satisfies the structural invariants; (i) components of another ISwComponent implementation, if the setter takes them; (f) through setters with the SAME component object listed at several positions (in one call or one by one through the container's Add); the bytes of ValidateAndEncodeClaimsToCBOR are parsed by the independent reader and compared key by key with the model's wire map (definite lengths, no duplicates/tags/trailing bytes, exact key set, exact values, bare-bstr nonce, never list+flag). Non-trivial = not the canned builder shape; distinct = class vector + route")
+	st.Require = []string{"route=setters", "route=literal", "route=decoded", "route=decoded+touched", "route=setters-twice", "route=json-decoded", "route=shared-component", "route=setters+refused", "route=extension", "extension-nomeas", "route=any-literal", "any-refused", "P1", "P2", "nomeas", "route=iface-wrapper", "route=concurrent-encoders", "edited-after-set"}
 	defer st.Flush(t)
 	rapid.Check(t, func(t *rapid.T) {
 		p := drawProf(t)
@@ -152,6 +152,50 @@ func TestC10_WireFormat(t *testing.T) {
 				}
 			}
 			var c psatoken.IClaims
+			if rapid.IntRange(0, 3).Draw(t, "edited-after-set") == 0 {
+				// a VALID set built through the setters, one of whose listed
+				// components is then changed through its exported fields (the
+				// caller re-uses the object for the next measurement): whatever
+				// the claims-set has become, what is emitted conforms
+				mv := GenValid(t, p, false)
+				cv, berr := mv.BuildSetters()
+				scs, gerr := cv.GetSoftwareComponents()
+				if berr != nil || gerr != nil || len(scs) == 0 {
+					st.Case("", "edited-nothing-to-edit")
+					return
+				}
+				sc, ok := scs[rapid.IntRange(0, len(scs)-1).Draw(t, "edit.idx")].(*psatoken.SwComponent)
+				if !ok {
+					st.Case("", "edited-nothing-to-edit")
+					return
+				}
+				if genBool.Draw(t, "edit.validate-first") {
+					_ = cv.Validate()
+				}
+				var nb *[]byte
+				if genBool.Draw(t, "edit.short") {
+					b := drawBytes(t, rapid.SampledFrom([]int{0, 1, 31, 33}).Draw(t, "edit.len"), "edit.bytes")
+					nb = &b
+				}
+				switch rapid.IntRange(0, 2).Draw(t, "edit.what") {
+				case 0:
+					sc.SignerID = nb
+				case 1:
+					sc.MeasurementValue = nb
+				default:
+					*sc = psatoken.SwComponent{MeasurementValue: sc.MeasurementValue}
+				}
+				out, err := psatoken.ValidateAndEncodeClaimsToCBOR(cv)
+				if err != nil {
+					st.Case("any|edited|refused|"+mv.ClassVector(), "route=any-literal", "any-refused", "edited-after-set", p.String())
+					return
+				}
+				if msg := c10Structural(out, p); msg != "" {
+					t.Fatalf("C10 violated (a listed component changed through its exported fields after SetSoftwareComponents; whatever is emitted): %s\n emitted: %x\n [%s]", msg, out, mv.ClassVector())
+				}
+				st.Case("any|edited|emitted|"+mv.ClassVector(), "route=any-literal", "edited-after-set", p.String())
+				return
+			}
 			if genBool.Draw(t, "decoded") {
 				var derr error
 				if c, derr = psatoken.DecodeClaimsFromCBOR(permutedToken(t, m)); derr != nil {
